@@ -5,6 +5,7 @@ import (
 	"fmt"
 	"sort"
 	"strings"
+	"time"
 
 	"github.com/krotik/ecal/interpreter"
 	"github.com/krotik/ecal/parser"
@@ -47,7 +48,7 @@ func init() {
 		New: func() interface{} { return &dbgPlan{} }, Run: func(p interface{}) { dbgRun(p.(*dbgPlan), "C16") }, Shrink: dbgShrink, Budget: 12_000_000})
 }
 
-var dbgBlockKinds = []string{"straight", "func", "nested", "loop", "tryerr", "sinks", "deep", "zoo", "chain", "errdata", "lib", "multiline"}
+var dbgBlockKinds = []string{"straight", "func", "nested", "loop", "tryerr", "sinks", "deep", "zoo", "chain", "errdata", "lib", "multiline", "slow"}
 
 // dbgItemLines: lines of the program that hold nothing but one item of a multi-line
 // list literal (a constant or a call); the thread that evaluates the literal arrives at
@@ -238,6 +239,10 @@ func dbgProgram(p *dbgPlan) (string, bool) {
 			fmt.Fprintf(&b, "v%d := %d + %d\nlog(\"v%d=\", v%d)\n", i, c, i, i, i)
 		case "func":
 			fmt.Fprintf(&b, "func f%d(a) {\n    let b := a + %d\n    log(\"f%d \", b)\n    return b\n}\nr%d := f%d(%d)\n", i, c, i, i, i, c+1)
+		case "slow":
+			// a call that takes (simulated) time: longer than the quiet period a timed
+			// StopThreads waits for
+			fmt.Fprintf(&b, "log(\"slow%d\")\nsleep(%d)\nlog(\"slept%d\")\n", i, 600000+c*50000, i)
 		case "multiline":
 			// an expression broken over several lines: some lines hold only a constant
 			fmt.Fprintf(&b, "ml%d := [\n    %d, # item\n    true, # item\n    null, # item\n    false, # item\n    \"s\", # item\n    inc(%d), # item\n    0\n]\n", i, c, c)
@@ -453,7 +458,13 @@ func dbgExec(p *dbgPlan, src string, withDebugger bool, prop string) dbgOutcome 
 			// released (it ends at its next state change), the debugger must stay usable
 			stopped = true
 			simrt.Count("fault_stop_threads_while_suspended")
-			dbg.StopThreads(0)
+			if p.StopAgain || p.StopAtRound%2 == 0 {
+				dbg.StopThreads(0)
+			} else {
+				// the timed form the console's reload uses: returns after a quiet period
+				simrt.Count("fault_stop_threads_timed")
+				dbg.StopThreads(500 * time.Millisecond)
+			}
 		}
 		for _, bp := range p.BPs {
 			if bp.When == round {
